@@ -260,6 +260,7 @@ theorem kholawPubScalar_kholaw (zl : Bytes) :
 theorem kholawNewLeft_kholaw (zl kl : Bytes) :
     kholawNewLeft .kholaw zl kl =
       if (Bytes.toNatLE kl + kholawPubScalar .kholaw zl) % edL = 0 then .error .key
+      else if 2 ^ 256 ≤ Bytes.toNatLE kl + kholawPubScalar .kholaw zl then .error .key
       else toBytesLE (Bytes.toNatLE kl + kholawPubScalar .kholaw zl) 32 := by
   rw [kholawPubScalar_kholaw, Nat.add_comm]
   unfold kholawNewLeft
@@ -277,7 +278,8 @@ theorem kholawNewRight_kholaw (zr kr : Bytes) :
 /-- **B (BIP32-Ed25519)** `CKDpub(N(parent), i) = N(CKDpriv(parent, i))` for non-hardened `i` and
 scheme `.kholaw`, as an equation between results, under `KholawLaw` and the explicit range
 hypothesis `kL + 8·zl[:28] < 2^255` (the child's left half keeps bit 255 clear; beyond that the
-private side stores a scalar whose top bit the library ignores, or overflows 32 bytes). -/
+private side stores a scalar whose top bit the library ignores, or is refused with `Bip32KeyError`
+because the sum needs more than 32 bytes). -/
 theorem kholaw_ckdPub_comm (law : KholawLaw) (nd : Node) (k : Bytes) (idx : Nat)
     (hcur : nd.curve = .ed25519Kholaw) (hsch : nd.scheme = .kholaw)
     (hp : nd.priv = some k)
@@ -310,9 +312,11 @@ theorem kholaw_ckdPub_comm (law : KholawLaw) (nd : Node) (k : Bytes) (idx : Nat)
   rw [kholawNewLeft_kholaw]
   by_cases hnz : (Bytes.toNatLE (k.take 32) + kholawPubScalar .kholaw ((kholawZ nd idx).take 32)) % edL = 0
   · rw [if_pos hnz, if_pos ((law.mul_id _ hrange).mpr hnz)]; rfl
-  · rw [if_neg hnz, if_neg (fun e => hnz ((law.mul_id _ hrange).mp e))]
-    have hlt : Bytes.toNatLE (k.take 32) + kholawPubScalar .kholaw ((kholawZ nd idx).take 32) < 256 ^ 32 :=
+  · have hlt : Bytes.toNatLE (k.take 32) + kholawPubScalar .kholaw ((kholawZ nd idx).take 32) < 256 ^ 32 :=
       Nat.lt_trans hrange (by decide)
+    have hlt' : ¬ 2 ^ 256 ≤ Bytes.toNatLE (k.take 32) + kholawPubScalar .kholaw ((kholawZ nd idx).take 32) := by
+      omega
+    rw [if_neg hnz, if_neg hlt', if_neg (fun e => hnz ((law.mul_id _ hrange).mp e))]
     obtain ⟨kl, hkl⟩ := (toBytesLE_ok_iff _ _).mpr hlt
     obtain ⟨hklv, hkll⟩ := toBytesLE_toNatLE hkl
     obtain ⟨kr, hkr, hkrl⟩ := kholawNewRight_kholaw ((kholawZ nd idx).drop 32) (k.drop 32)
